@@ -276,6 +276,7 @@ class Run:
         self.assumptions = []
         self.counts = {}
         self.analysed = {}
+        self.key_prefix = ""
         self.replay_filter = None
         if replay:
             with open(replay) as fh:
@@ -299,7 +300,7 @@ class Run:
 
     # an obligation = one rule instance; ok False -> violation (unless known)
     def ob(self, rule, key, ok, where="", detail="", sample=None):
-        full = "%s|%s" % (rule, key)
+        full = "%s|%s%s" % (rule, self.key_prefix, key)
         if self.replay_filter is not None and full != self.replay_filter:
             return ok
         self.obligations.append({
